@@ -103,6 +103,21 @@ def handle (hdr : List String) (body : List (List String)) : List String :=
             let canonIds : List Id := ((bundles.flatMap (·.blocks)).map (·.id))
             let _ := canonIds
             let held := r.stack.map (·.id)
+            -- the handoff must happen when files and hub cover the chain: a stream that has stopped delivering although
+            -- its tip is a canonical block the hub still retains and the hub holds later canonical blocks has stalled
+            -- the hub as the schedule left it (pushes that were still pending when the stream went quiet are applied in order)
+            let hubFinal := match runStreamFinal cfg hubCfg bundles files pushes with
+              | some mf => mf.pushes.foldl (fun s p => (Forkable.processBlock hubCfg s p.blk none).1) mf.hub
+              | none => Forkable.init hubCfg
+            let lowestFinal := hubLowest hubFinal
+            let stalled : List String := match r.stack.getLast?, HubBurst.headSegment hubFinal with
+              | some tip, some (hubHead, seg) =>
+                -- the hub's own chain (what its forkable delivered), not the ancestry of the highest block it received
+                if send == "stuck" && tip.id != hubHead.id && seg.any (·.blk.id == tip.id) && lowestFinal != 0 && lowestFinal ≤ tip.num
+                    && (sp == 0 || tip.num < sp)
+                then ["monitor C07 FAIL stream-stalls-although-the-hub-retains-its-tip-and-holds-later-canonical-blocks"] else []
+              | _, _ => []
+            if stalled != [] then stalled else
             if held.length == (held.foldl (fun (l : List Id) i => if l.contains i then l else l ++ [i]) []).length then []
             else ["monitor C07 FAIL a-block-is-held-twice-after-the-handoff"]
       model ++ (c13c ++ c13a ++ c13b ++ c13d).take 1 ++ c07.take 1
